@@ -7,6 +7,14 @@ HOOK_COMMITS = ["2c68a33", "da4e8eb"]
 
 # id -> (engine, level, technique, level text, level note)
 CHECKS = {
+ "C07": ("bubble", "exploration",
+         "stalled-reader scenarios; zero-virtual-delay oracle for every reply and delivery to reading sessions, retry-period bound, backlog bound after resume, bubble deadlock detector, +3 min drain",
+         "runtime monitor: sessions stop reading in every role (subscriber, meta subscriber, callee, caller) with small queues and socket buffers while readers exchange traffic; each reply/delivery to a reader must carry the virtual timestamp of its request (the quiescence point of the same instant), except for a callee that yielded to a blocked caller, which is held for at most the result-retry period; resumed sessions drain at most their queue bound; the bubble's all-blocked detector and a final drain decide freedom from wait cycles on the schedules produced",
+         "the router's own meta session counts as a callee for the documented yield-retry exception; exact queue accounting only for in-process stalled peers"),
+ "C08": ("bubble", "exploration",
+         "burst mode (no quiescence between concurrent senders) with unique (sender, counter) tokens; offline ordering/bracket checker over per-receiver logs",
+         "runtime monitor: publishers, callers, reactive callees and churning subscribers/callees run concurrently over non-local transports with GOMAXPROCS varied; the per-receiver logs are checked offline for per-(publisher,topic,subscription) and per-(caller,callee) monotonicity, progressive-result order and the SUBSCRIBED/UNSUBSCRIBED and REGISTERED/UNREGISTERED brackets; evidence reports distinct interleavings seen",
+         "schedules not produced are not covered; queues are sized so that legal overflow drops cannot look like reordering"),
  "C06": ("bubble", "fault_enumeration",
          "Close/RemoveRealm injected at every step boundary and inside every step of a script; returns / no panic for 2 virtual hours / GOODBYE-or-EOF / clean refusal of later attaches / no goroutine left / bystander realm served",
          "runtime monitor with fault enumeration: for each generated base script (calls with armed timers, publications, kills, a half-done handshake, a silent peer, a stalled subscriber with a tiny socket buffer) the shutdown is invoked at every step boundary and together with every step's message (exhaustive over those crash points for that script); the bubble's quiescence, deadlock and leak detection decide",
